@@ -157,7 +157,6 @@ def mod(a, b):
         return sub(a, mul(b, floordiv(a, b)))
     ra, rb = to_real(a), to_real(b)
     k = z3.ToInt(ra / rb)
-    WRAPS.append((rb, k))
     return ra - rb * z3.ToReal(k)
 
 
@@ -276,10 +275,10 @@ def implies(a, b):
 # --------------------------------------------------------------------------- theory
 PI = z3.Real("pi")
 INF = z3.Real("inf_")  # np.inf: an opaque value; only (dis)equality with it is meaningful
-UF1 = {n: z3.Function(n, RealS, RealS) for n in
+UF1 = {n: z3.Function("u_" + n, RealS, RealS) for n in
        ("exp", "log", "sqrt", "sin", "cos", "tan", "tanh", "sinh", "cosh", "arctan",
         "arcsin", "arccos")}
-UF2 = {n: z3.Function(n, RealS, RealS, RealS) for n in ("arctan2", "powr")}
+UF2 = {n: z3.Function("u_" + n, RealS, RealS, RealS) for n in ("arctan2", "powr")}
 
 
 def uf(name, a):
@@ -306,6 +305,47 @@ def uf2(name, a, b):
     return UF2[name](to_real(a), to_real(b))
 
 
+def has_var(t, _memo={}):
+    k = t.get_id()
+    if k in _memo:
+        return _memo[k]
+    r = False
+    if z3.is_var(t):
+        r = True
+    elif z3.is_app(t):
+        r = any(has_var(c) for c in t.children())
+    elif z3.is_quantifier(t):
+        r = False   # closed from the outside (its own variables are bound inside)
+    _memo[k] = r
+    if len(_memo) > 500000:
+        _memo.clear()
+    return r
+
+
+def ground_subterms(ts):
+    """sub-terms without loose bound variables (usable in ground axiom instances)"""
+    seen = {}
+    for t in ts:
+        subterms(t, seen)
+    return {k: x for k, x in seen.items() if not has_var(x)}
+
+
+def skolemize(goal):
+    """forall x. A -> B   ==>   ([A[x:=c]], B[x:=c]) with fresh constants, repeatedly"""
+    hyps = []
+    while True:
+        if is_sym(goal) and z3.is_quantifier(goal) and goal.is_forall():
+            n = goal.num_vars()
+            cs = [z3.Const(Fresh.name("sk_" + goal.var_name(i).split("!")[0]), goal.var_sort(i)) for i in range(n)]
+            goal = z3.substitute_vars(goal.body(), *reversed(cs))
+            continue
+        if is_sym(goal) and z3.is_implies(goal):
+            hyps.append(goal.arg(0))
+            goal = goal.arg(1)
+            continue
+        return hyps, goal
+
+
 def subterms(t, seen=None):
     """All sub-terms of a z3 term (DAG walk)."""
     seen = {} if seen is None else seen
@@ -326,41 +366,42 @@ def subterms(t, seen=None):
 def theory_axioms(terms, extra_trig=False):
     """Ground instances of the A-table (DESIGN §2.7) for the applications occurring in `terms`.
     Every instance is a true statement about the real functions; none is quantified."""
-    seen = {}
-    for t in terms:
-        subterms(t, seen)
+    seen = ground_subterms(terms)
     ax = []
     has_pi = False
-    wrapk = {}
-    for (p, k) in WRAPS:
-        wrapk[k.get_id()] = (p, k)
     for x in list(seen.values()):
         if not z3.is_app(x):
             continue
         d = x.decl()
         n = d.name()
+        n = n[2:] if n.startswith("u_") else n
         if x.eq(PI):
             has_pi = True
         if d.arity() == 1 and n in UF1 and d.eq(UF1[n]):
             a = x.arg(0)
+            if n == "cos":
+                ax.append(z3.Implies(z3.And(2 * a > -PI, 2 * a < PI), x > 0))
+                ax.append(z3.Implies(z3.And(2 * a >= -PI, 2 * a <= PI), x >= 0))
+                has_pi = True
             if n == "exp":
                 ax.append(x > 0)
                 ax.append(z3.Implies(a <= 0, x <= 1))
                 ax.append(z3.Implies(a >= 0, x >= 1))
             elif n == "sqrt":
-                ax.append(z3.Implies(a >= 0, z3.And(x >= 0, x * x == a)))
+                ax.append(x >= 0)   # sqrt of a negative number is NaN in numpy: outside the real model
+                ax.append(z3.Implies(a >= 0, x * x == a))
                 ax.append(z3.Implies(a > 0, x > 0))
             elif n in ("sin", "cos"):
                 ax.append(z3.And(x >= -1, x <= 1))
                 other = UF1["cos" if n == "sin" else "sin"](a)
                 if extra_trig:
                     ax.append(x * x + other * other == 1)
-                # 2*pi periodicity for every integer term k produced by a real modulo
-                sub = subterms(a)
-                for kid, (p, k) in wrapk.items():
-                    if kid in sub:
-                        shifted = z3.simplify(a + p * z3.ToReal(k), som=True)
-                        ax.append(z3.Implies(p == 2 * PI, x == UF1[n](shifted)))
+                # 2*pi periodicity: for every integer-valued sub-term k = ToInt(..) of the argument,
+                # f(a) == f(a + 2*pi*k)  (valid for any integer k)
+                for y in subterms(a).values():
+                    if z3.is_app(y) and y.decl().kind() == z3.Z3_OP_TO_INT:
+                        shifted = z3.simplify(a + 2 * PI * z3.ToReal(y), som=True)
+                        ax.append(x == UF1[n](shifted))
                         has_pi = True
             elif n == "tanh":
                 ax.append(z3.And(x > -1, x < 1))
@@ -475,10 +516,76 @@ def make_sum(lo, hi, bv, body):
     return SumDef(bv, body, params).app(lo, hi)
 
 
+class ExtDef:
+    """max / min over bv in [lo,hi) of body:  app = f(lo, hi, *params)"""
+    registry = {}
+
+    def __init__(self, bv, body, params, is_max):
+        self.bv, self.body, self.params, self.is_max = bv, body, list(params), is_max
+        self.f = z3.Function(Fresh.name("Max" if is_max else "Min"), IntS, IntS, *[p.sort() for p in self.params], RealS)
+        ExtDef.registry[self.f.get_id()] = self
+
+    def body_at(self, app, at):
+        subs = [(self.bv, to_z3(at))] + list(zip(self.params, app.children()[2:]))
+        return z3.substitute(self.body, *subs)
+
+
+def make_extreme(lo, hi, bv, body, is_max):
+    params = [c for c in free_consts(body) if not c.eq(bv)]
+    params.sort(key=lambda c: c.decl().name())
+    d = ExtDef(bv, body, params, is_max)
+    return d.f(to_z3(lo), to_z3(hi), *params)
+
+
+class FirstDef:
+    """first index k in [lo,hi) with body(k), else hi (lo if hi < lo):  app = f(lo, hi, *params)"""
+    registry = {}
+
+    def __init__(self, bv, body, params):
+        self.bv, self.body, self.params = bv, body, list(params)
+        self.f = z3.Function(Fresh.name("First"), IntS, IntS, *[p.sort() for p in self.params], IntS)
+        FirstDef.registry[self.f.get_id()] = self
+
+    def body_at(self, app, at):
+        subs = [(self.bv, to_z3(at))] + list(zip(self.params, app.children()[2:]))
+        return z3.substitute(self.body, *subs)
+
+
+def make_first(lo, hi, bv, body):
+    params = [c for c in free_consts(body) if not c.eq(bv)]
+    params.sort(key=lambda c: c.decl().name())
+    d = FirstDef(bv, body, params)
+    return d.f(to_z3(lo), to_z3(hi), *params)
+
+
+def defined_function_ids():
+    return set(SumDef.registry) | set(ExtDef.registry) | set(FirstDef.registry)
+
+
+def ext_axioms(terms):
+    """witness and bound axioms for max/min applications (ground apps only)"""
+    ax = []
+    for x in ground_subterms(terms).values():
+        if z3.is_app(x) and x.decl().get_id() in ExtDef.registry:
+            d = ExtDef.registry[x.decl().get_id()]
+            lo, hi = x.arg(0), x.arg(1)
+            w = Fresh.int("argext")
+            j = Fresh.int("j")
+            ax.append(z3.Implies(lo < hi, z3.And(lo <= w, w < hi, x == d.body_at(x, w))))
+            b = d.body_at(x, j)
+            ax.append(z3.ForAll([j], z3.Implies(z3.And(lo <= j, j < hi), (x >= b) if d.is_max else (x <= b))))
+        elif z3.is_app(x) and x.decl().get_id() in FirstDef.registry:
+            d = FirstDef.registry[x.decl().get_id()]
+            lo, hi = x.arg(0), x.arg(1)
+            j = Fresh.int("j")
+            ax.append(z3.And(x >= lo, z3.Implies(hi >= lo, x <= hi), z3.Implies(hi < lo, x == lo)))
+            ax.append(z3.ForAll([j], z3.Implies(z3.And(lo <= j, j < x), z3.Not(d.body_at(x, j)))))
+            ax.append(z3.Implies(x < hi, d.body_at(x, x)))
+    return ax
+
+
 def sum_apps(terms):
-    seen = {}
-    for t in terms:
-        subterms(t, seen)
+    seen = ground_subterms(terms)
     out = []
     for x in seen.values():
         if z3.is_app(x) and x.decl().get_id() in SumDef.registry:
@@ -543,9 +650,10 @@ def mentions(t, const_ids=(), func_ids=()):
                 did = x.decl().get_id()
                 if x.num_args() > 0 and did in func_ids:
                     return True
-                if did in SumDef.registry and did not in seen_defs:
-                    seen_defs.add(did)
-                    stack.append(SumDef.registry[did].body)
+                for reg_ in (SumDef.registry, ExtDef.registry, FirstDef.registry):
+                    if did in reg_ and did not in seen_defs:
+                        seen_defs.add(did)
+                        stack.append(reg_[did].body)
     return False
 
 
@@ -583,7 +691,15 @@ MULF = z3.Function("mul_abs", RealS, RealS, RealS)
 DIVF = z3.Function("div_abs", RealS, RealS, RealS)
 
 
+_signed = set()
+
+
 def abstract_nonlinear(fs):
+    _signed.clear()
+    return _abstract_nonlinear(fs)
+
+
+def _abstract_nonlinear(fs):
     """Replaces products of two or more non-numeral factors (and divisions by non-numerals) by
     applications of uninterpreted functions, arguments in a canonical order.  Every model of the
     original formulas is a model of the abstraction (take mul_abs = *), so `unsat` of the
@@ -633,4 +749,30 @@ def abstract_nonlinear(fs):
     out = [rb(f) for f in fs]
     x, y = z3.Reals("x!c y!c")
     out.append(z3.ForAll([x, y], MULF(x, y) == MULF(y, x), patterns=[MULF(x, y)]))
+    # sign rules of * and / as ground instances (valid for the real operations)
+    for _ in range(2):
+        g = ground_subterms(out)
+        extra = []
+        for t in g.values():
+            if not z3.is_app(t) or t.get_id() in _signed:
+                continue
+            if t.decl().eq(MULF):
+                a, b = t.arg(0), t.arg(1)
+                extra += [z3.Implies(z3.And(a >= 0, b >= 0), t >= 0), z3.Implies(z3.And(a <= 0, b <= 0), t >= 0),
+                          z3.Implies(z3.And(a >= 0, b <= 0), t <= 0), z3.Implies(z3.And(a <= 0, b >= 0), t <= 0),
+                          z3.Implies(z3.Or(a == 0, b == 0), t == 0), z3.Implies(t == 0, z3.Or(a == 0, b == 0)),
+                          z3.Implies(z3.And(a > 0, b > 0), t > 0), z3.Implies(z3.And(a < 0, b < 0), t > 0),
+                          z3.Implies(a == 1, t == b), z3.Implies(b == 1, t == a)]
+                if a.eq(b):
+                    extra.append(t >= 0)
+            elif t.decl().eq(DIVF):
+                a, b = t.arg(0), t.arg(1)
+                extra += [z3.Implies(z3.And(a >= 0, b > 0), t >= 0), z3.Implies(z3.And(a <= 0, b > 0), t <= 0),
+                          z3.Implies(z3.And(a >= 0, b < 0), t <= 0), z3.Implies(z3.And(a <= 0, b < 0), t >= 0),
+                          z3.Implies(z3.And(a > 0, b > 0), t > 0), z3.Implies(a == 0, t == 0),
+                          z3.Implies(b == 1, t == a)]
+            else:
+                continue
+            _signed.add(t.get_id())
+        out += extra
     return out
